@@ -228,29 +228,39 @@ class MiscMonitors:
                 continue
             self.probes["C16.other_docs"] += 1
             self.count("C16", (self.step_key(s1), self.step_key(s2), self.dg(L)))
-            if not self.c16_one(m, L, r2.doc, dict(det, other=L.to_json(), other_kind=kind), "other"):
+            if not self.c16_one(m, L, r2.doc, dict(det, other=L, other_kind=kind), "other"):
                 return
 
     def c16_one(self, m, doc, expect, det, which):
+        sim = self.sim
+        if "other" in det and not isinstance(det["other"], dict):
+            det = dict(det)
+            other = det.pop("other")
+            det_full = lambda: dict(det, other=other.to_json())  # noqa: E731  (only on violation)
+        else:
+            det_full = lambda: det  # noqa: E731
+        return self.c16_one_(m, doc, expect, det_full, which)
+
+    def c16_one_(self, m, doc, expect, det_full, which):
         sim = self.sim
         sim.in_oracle += 1
         try:
             try:
                 r = m.apply(doc)
             except ValueError as e:
-                self.violation("C16", "merge.raised_on_" + which, dict(det, error=repr(e)))
+                self.violation("C16", "merge.raised_on_" + which, dict(det_full(), error=repr(e)))
                 return False
         finally:
             sim.in_oracle -= 1
         if r.failed or r.doc is None:
-            self.violation("C16", "merge.fails_on_" + which, dict(det, failed=r.failed))
+            self.violation("C16", "merge.fails_on_" + which, dict(det_full(), failed=r.failed))
             return False
         if not self.doc_equal(r.doc, expect) or not r.doc.eq(expect):
-            self.violation("C16", "merge.differs_on_" + which, dict(det, expected=expect.to_json(),
+            self.violation("C16", "merge.differs_on_" + which, dict(det_full(), expected=expect.to_json(),
                                                                     got=r.doc.to_json()))
             return False
         if r.doc.content.size - doc.content.size != expect.content.size - doc.content.size:
-            self.violation("C16", "merge.size_on_" + which, det)
+            self.violation("C16", "merge.size_on_" + which, det_full())
             return False
         return True
 
